@@ -33,10 +33,15 @@ def is_call_of(n, q) -> bool:
 
 
 def has_yield(fnode) -> bool:
-    for n in ast.walk(fnode):
+    """the function is a generator: a yield of its own body (yields of nested defs, lambdas and classes are theirs)"""
+    stack = list(ast.iter_child_nodes(fnode))
+    while stack:
+        n = stack.pop()
         if isinstance(n, (ast.Yield, ast.YieldFrom)):
-            # only if it belongs to this function (not a nested def)
             return True
+        if isinstance(n, (ast.FunctionDef, ast.AsyncFunctionDef, ast.Lambda, ast.ClassDef)):
+            continue
+        stack.extend(ast.iter_child_nodes(n))
     return False
 
 
@@ -1261,6 +1266,10 @@ class CallMixin:
                         v_ = f_
                     self.write(out, c_, self.snapshot(v_, st), st, fr, site)
                 return out
+        if q == "numpy.take" and ((len(P) == 2 and set(kw) == {"axis"}) or (len(P) == 3 and not kw)):
+            ax_ = self.res(kw["axis"] if kw else P[2], st)
+            if ax_.op == "Const" and ax_.attr == 0 and type(ax_.attr) is int:
+                return self.subscript(pos[0], P[1], st, fr, site)      # take(a, idx, axis=0) is a[idx]
         if q == "numpy.take" and len(P) == 2 and not kw and self._mask_of_index(P[1]) is not None:
             # take(x, flatnonzero(m)) is x[m] (both flatten alike)
             return self.subscript(pos[0], self._mask_of_index(P[1]), st, fr, site)
@@ -1382,6 +1391,23 @@ class CallMixin:
             pure.extra = {"cat": cat}
             # exactly  o[m] = ufunc(x)[m]  (the operands broadcast against the output)
             wh = self.res(kw["where"], st)
+            if tgt.op == "Attr" and tgt.attr == "T" and tgt.args:
+                # out=B.T with a per-row mask of B: the mask runs along the last axis of B.T, i.e. over the rows of B -
+                #   ufunc(B.T, c, out=B.T, where=m)   is   B[m] = ufunc(B, c)[m]   when the other operands are scalars
+                base_ = tgt.args[0]
+                ops_ = [self.res(p, st) for p in P]
+                def is_bt(o_):
+                    return o_.op == "Attr" and o_.attr == "T" and o_.args and self.g.vn(self.res(o_.args[0], st)) == \
+                        self.g.vn(self.res(base_, st))
+                if all(is_bt(o_) or o_.op == "Const" for o_ in ops_) and any(is_bt(o_) for o_ in ops_):
+                    bargs = [fn] + [self.freeze(self.res(base_, st), st) if is_bt(o_) else o_ for o_ in ops_] + \
+                        [self.freeze(self.res(kw[k], st), st) for k in keep]
+                    pure_b = self.mk("Call", bargs, (q, len(P), tuple(keep), serial), site)
+                    pure_b.extra = {"cat": cat}
+                    self.write(base_, wh, self.mk("Subscript", (pure_b, wh), None, site), st, fr, site)
+                    return tgt
+                # any other store through a transposed view: the contents of the array it views are not known any more
+                st.cur[base_.id] = self.unknown("out=-through-transposed-view", site, (self.res(base_, st),))
             sel = self.mk("Subscript", (pure, wh), None, site)
             new = self.mk("Scatter", (self.res(tgt, st), wh, sel), None, site)
             self.effect("write", site, st, fr, node=tgt, roots=self.roots(tgt), idx=wh,
